@@ -44,11 +44,122 @@ def check_sequences(rep):
     return hits
 
 
+DEP_SEQS = [
+    # (main module, dependency source, observer) - a dependency that throws must not leave its scope installed
+    ('import {h} from "./dep"; h', 'export const h = 1; const depSecret = 5; function depFn(){} throw new Error("dep boom")', 'typeof depSecret + "," + typeof depFn'),
+    ('import {h} from "./dep"; h', 'export const h = 1; const depSecret = 5; null.x', 'typeof depSecret'),
+    ('import {h} from "./dep"; h', 'export const h = 1; const depSecret = 5;', 'typeof depSecret'),
+]
+
+
+def check_env_restoring_functions(rep, cross):
+    """functions that install another environment temporarily must put the caller's environment back on EVERY return path"""
+    specs = [
+        ('Interpreter', 'execute_pending_module', True),
+        ('Interpreter', 'call_bytecode_function_with_new_target', False),
+        ('Interpreter', 'resume_bytecode_generator', False),
+    ]
+    outs = driver.replay([{'cmd': 'module_seq', 'main': m, 'dep': d, 'observer': o} for m, d, o in DEP_SEQS])
+    dep_bad = []
+    for (m, d, o), r in zip(DEP_SEQS, outs):
+        rep.validated += 1
+        if r['observer'].get('value') != r['fresh'].get('value'):
+            dep_bad.append((d, o, r['observer'].get('value'), r['fresh'].get('value')))
+    for ty, meth, check_path in specs:
+        ex = common.executor(unwind=3)
+        ex.auto_havoc = True
+        F = ledger.InterpFields(ex)
+        ex.auto_frames = {'Interpreter': {F['env'], F['current_module_path']}}
+        # documented contracts of two callees
+        ex.havoc(r'^Interpreter::setup_import_bindings$', ret=lambda e, s, c: EnumV('Result', 0, {0: {0: UNIT}}), label='Interpreter::setup_import_bindings (assumed to succeed: its only error is an import of a module the fixed-point loop has not loaded)')
+
+        def h_deleg(e, s, c):
+            e.havoc_used.add('Interpreter::start_yield_star_delegation (contract: restores env to the saved environment it is given)')
+            e.store(s, c.args[0].addr, c.args[0].path + (('f', F['env'], None),), c.args[3])
+            return e.ret(s, c, e.fresh(s, c.dest_ty, 'deleg'))
+        ex.overrides.append((re.compile(r'^Interpreter::start_yield_star_delegation$'), h_deleg))
+
+        def key(s):
+            loc = tuple((f.fn.name, f.block, f.ret_block, id(f.on_return), tuple(sorted(f.visits.items()))) for f in s.frames)
+            iv = s.store.get(s.extra.get('interp_addr'))
+            envv = iv.fields.get(F['env']) if isinstance(iv, Agg) else None
+            return (loc, str(getattr(envv, 'id', None)))
+        ex.subsume_key = None      # no state merging here: 17 / ~600 / ~850 paths are affordable
+        fn = common.fn_name(ex, ty, meth)
+        f = ex.mir.get(fn)
+        st = State()
+        env0 = Opaque('Gc<JsObject>', z3.Int('$env_at_entry'))
+        path0 = EnumV('Option<ModulePath>', z3.BitVec('cur_path_some', 64), {1: {0: Opaque('ModulePath', z3.Int('$path_at_entry'))}})
+        st.assume(z3.ULT(path0.discr, 2))
+        a = st.alloc(Agg('struct', 'Interpreter', {F['env']: env0, F['current_module_path']: path0}, lazy=True))
+        st.extra['interp_addr'] = a
+        args = [Ref(a)] + [ex.fresh(st, t, '$a%d' % i) for i, (n_, t) in enumerate(f.args) if i > 0]
+        ex.call_function(st, fn, args)
+        ends = ex.run(st, max_paths=20000)
+        nret = 0
+        bad = None
+        for e in ends:
+            if e.status in ('bound', 'panic'):
+                continue
+            if e.status != 'return':
+                rep.inconc('%s: %s %s' % (meth, e.status, e.detail[:160]))
+                continue
+            nret += 1
+            iv = e.st.store[a]
+            envv = iv.fields.get(F['env'])
+            g = z3.BoolVal(isinstance(envv, Opaque)) if not isinstance(envv, Opaque) else envv.id == env0.id
+            if check_path:
+                pv = iv.fields.get(F['current_module_path'])
+                g = z3.And(g, ledger_same_opt(pv, path0))
+            r, m = ex.check_sat_pc(e.st.pc, [z3.Not(g)])
+            if r == 'sat' and bad is None:
+                bad = e
+            elif r == 'unsat' and len(cross) < 4000:
+                cross.append(('%s restores env' % meth, list(e.st.pc) + [z3.Not(g)], 'unsat'))
+        what = '%s::%s puts the caller\'s environment%s back on every return path' % (ty, meth, ' and current_module_path' if check_path else '')
+        rep.obligation(what, 'sat' if bad is not None else 'unsat', '%d return paths (loops unrolled 3 times)' % nret, 0.0)
+        if bad is not None:
+            res = 'Ok' if (isinstance(bad.value, EnumV) and bad.value.discr == 0) else 'Err'
+            key_ = 'C11/%s/env-not-restored' % meth
+            p = rep.write_replay('env-%s' % meth, {'function': meth, 'returns': res, 'witness_sequences': [dict(dep=d, observer=o, observed=ov, fresh=fv) for d, o, ov, fv in dep_bad]})
+            if dep_bad and meth == 'execute_pending_module':
+                d, o, ov, fv = dep_bad[0]
+                rep.violation(key_, '%s returns %s with another environment installed; witness: after a dependency %r fails, %r gives %r (fresh interpreter: %r)' % (meth, res, d, o, ov, fv), p)
+            else:
+                rep.violation(key_, '%s has a path returning %s that leaves another environment installed (symbolic counterexample)' % (meth, res), p)
+        if nret == 0:
+            rep.inconc('%s: no return path (vacuity)' % meth)
+        rep.vacuity.append('%s: %d return paths' % (meth, nret))
+        rep.sample({'kernel': '%s environment restoration' % meth, 'return_paths': nret})
+        rep.absorb(ex)
+    if dep_bad and not any('env-not-restored' in k for k, _, _ in rep.violations):
+        d, o, ov, fv = dep_bad[0]
+        p = rep.write_replay('dep-observer', {'cmd': 'module_seq', 'dep': d, 'observer': o, 'observed': ov, 'fresh': fv})
+        rep.violation('C11/observer/after-failing-dependency', 'after a dependency %r fails, %r gives %r (fresh interpreter: %r)' % (d, o, ov, fv), p)
+
+
+def ledger_same_opt(a, b):
+    if a is b:
+        return z3.BoolVal(True)
+    if not isinstance(a, EnumV):
+        return z3.BoolVal(False)
+    da, db = a.discr_expr(), b.discr_expr()
+    pa = a.payload.get(1, {}).get(0)
+    pb = b.payload.get(1, {}).get(0)
+    same_payload = z3.BoolVal(True)
+    if isinstance(pa, Opaque) and isinstance(pb, Opaque):
+        same_payload = pa.id == pb.id
+    elif pa is not pb:
+        same_payload = z3.BoolVal(False)
+    return z3.And(da == db, z3.Implies(da == 1, same_payload))
+
+
 def run(rep):
     rep.bounds = dict(state='any interpreter state with an active run (module environment present or not)', vm_step='any VmStepResult', loops='none')
     rep.assumptions = [
         'BytecodeVM::step may change every Interpreter field except active_saved_env/active_module_env/active_module_path and active_vm (taken out before the call)',
         'id counters stay below 2^63',
+        'environment-restoration kernels: every callee is abstracted (arbitrary result, does not change Interpreter.env / current_module_path); setup_import_bindings is assumed to succeed',
         'materialize_thrown_error, RuntimeValue::from_guarded, finalize_module_exports do not touch the run bookkeeping or env (framed havoc)',
     ]
     rep.outside = ['abandoned runs (prepare() over a live VM)', 'call-stack / trampoline unwinding inside the VM', 'prepare() failing after the module environment was installed']
@@ -137,6 +248,7 @@ def run(rep):
     rep.vacuity.append('step (active VM): %d feasible paths; outcomes %s' % (len(ends), sorted(outcomes)))
     rep.sample({'kernel': 'Interpreter::step terminal branch + finalize_active_execution', 'paths': len(ends), 'outcomes': sorted(outcomes)})
     rep.absorb(ex)
+    check_env_restoring_functions(rep, cross)
     rep.cross = driver.cross_check(cross, 300, 'ALL', rep.tier, rep.seed)
     rep.extra['cross_checked_obligations'] = len(cross)
 
